@@ -103,6 +103,7 @@ type Client struct {
 	aborted        bool
 	Pinged         bool   // the h2ping step has seen its acknowledgement
 	TunnelEcho     []byte // bytes echoed back through an upgraded connection
+	Continues      int    // 100 (Continue) responses received in h1expect steps
 	stalled        bool
 	AbortedAt      time.Duration
 	ConnectedAt    time.Duration
@@ -375,6 +376,17 @@ func (c *Client) exec(s *Step) error {
 			return fmt.Errorf("not connected")
 		}
 		return c.h1recv(s)
+	case "h1expect":
+		// Expect: 100-continue - Pieces[0] is the request head, the rest is the body, which is
+		// sent when the first 100 (Continue) arrives and not at all if a final response comes first
+		if c.tls == nil {
+			return fmt.Errorf("not connected")
+		}
+		if _, err := c.tls.Write(s.Pieces[0]); err != nil {
+			c.recordResp(&RespRecord{Tag: s.Tag, Err: "write: " + err.Error()})
+			return err
+		}
+		return c.h1recv(s)
 	case "h2await":
 		return c.h2await(s)
 	case "h2ping":
@@ -531,6 +543,23 @@ func (c *Client) h1recv(s *Step) error {
 		if err != nil {
 			c.recordResp(&RespRecord{Tag: s.Tag, Err: "read: " + err.Error(), Info: info})
 			return err
+		}
+		if resp.StatusCode == 100 && s.Kind == "h1expect" {
+			// the go-ahead for the body (more than one 100 may arrive: the proxy's own and the
+			// back-end's, forwarded); the body is sent once
+			c.W.mu.Lock()
+			c.Continues++
+			first := c.Continues == 1
+			c.W.mu.Unlock()
+			if first {
+				for _, p := range s.Pieces[1:] {
+					if _, err := c.tls.Write(p); err != nil {
+						c.recordResp(&RespRecord{Tag: s.Tag, Err: "write body: " + err.Error(), Info: info})
+						return err
+					}
+				}
+			}
+			continue
 		}
 		if resp.StatusCode >= 100 && resp.StatusCode < 200 && resp.StatusCode != 101 {
 			// informational: no body; the final response follows
